@@ -94,8 +94,8 @@ def wit(env, E, X, **kw):
 FORMULAS = dict(Omega=lambda: COV.Omega, tildeFc=lambda: BAS.tildeFc)
 
 
-def case_formula(rec, nb, fname, mode):
-    """sum over the groups of every partition of the bands, and the trace over all bands"""
+def case_formula(rec, nb, fname, mode, contiguous=False):
+    """sum over the groups of every partition of the bands (contiguous=True: only partitions into runs of neighbouring bands, which is what the calculators form), and the trace over all bands"""
     shadow(MODS)
     E, X = atoms(nb)
     kw = dict(external_terms=False) if mode == "kw" else {}
@@ -108,7 +108,7 @@ def case_formula(rec, nb, fname, mode):
         tr = f.trace(0, np.arange(nb), np.arange(0))
         rec.eq("trace over all bands == 0", tr, zero, key=f"{fname} internal: trace over all bands != 0")
         for part in set_partitions(list(range(nb))):
-            if len(part) == 1:
+            if len(part) == 1 or (contiguous and any(max(g) - min(g) + 1 != len(g) for g in part)):
                 continue
             tot = 0
             for g in part:
@@ -220,6 +220,57 @@ def case_pipeline(rec, nb, generic_U):
     rec.explore(body, sorted_ass(E) + [thr.zreal() > 0])
 
 
+# ---- thorough: the AHC-type calculators with the Fermi grid anywhere, several k-points, k-resolved mode ---------------------------------------------------------
+def atoms_k(nb, nk):
+    E = symvec("E", (nk, nb))
+    X = {('Ham', 1): np.stack([herm(f"V{k}", nb, (3,)) for k in range(nk)]).view(SymArray), ('AA', 0): np.stack([herm(f"A{k}", nb, (3,)) for k in range(nk)]).view(SymArray),
+         ('rotAA', 0): np.stack([herm(f"O{k}", nb, (3,)) for k in range(nk)]).view(SymArray), ('FF', 0): symvec("F", (nk, nb, nb, 3, 3), real=False)}
+    return E, X
+
+
+def shell_k(nb, E, X, copy=lambda a: a.copy()):
+    dk = shell(nb, E, X, copy=copy)
+    nk = E.shape[0]
+    dk.__dict__.update(nk=nk, select_K=np.ones(nk, dtype=bool))
+    return dk
+
+
+CALCS = dict(AHC=lambda: ST.AHC, AHC_test=lambda: ST.AHC_test)
+
+
+def case_ahc_anywhere(rec, nb, nEF, kramers, nk, k_resolved, cname):
+    """no assumption on where the Fermi grid lies: for every grid point (and k-point) the harness asks 'all bands of every summed k-point at or below this level?' and, where yes, demands 0"""
+    shadow(MODS)
+    ST.ceil = sym_ceil
+    E, X = atoms_k(nb, nk)
+    thr, EF0, dEF = SymC.var("thr"), SymC.var("EF0"), SymC.var("dEF")
+    Ef = sarr([EF0 + dEF * i for i in range(nEF)])
+    ass = [E[k, i].zreal() <= E[k, i + 1].zreal() for k in range(nk) for i in range(nb - 1)] + [thr.zreal() > 0, dEF.zreal() > 0]
+    zero = sarr([SymC.of(0)] * 3)
+
+    def body(rec):
+        rec.witness = lambda env: dict(test="ahc_anywhere", nb=nb, nk=nk, k_resolved=k_resolved, calc=cname, kramers=kramers, thr=env.val(thr), Efermi=[env.val(e) for e in Ef],
+                                       E=env.val(E).tolist(), V=env.arr(X[('Ham', 1)]), A=env.arr(X[('AA', 0)]), O=env.arr(X[('rotAA', 0)]), F=env.arr(X[('FF', 0)]))
+        dk = shell_k(nb, E, X)
+        calc = CALCS[cname]()(Efermi=Ef.copy(), kwargs_formula={"external_terms": False}, degen_thresh=thr, degen_Kramers=kramers, save_mode="", k_resolved=k_resolved)
+        res = calc(dk)
+        data = res.data
+        rec.concrete("result shape", np.shape(data) == ((nk, nEF, 3) if k_resolved else (nEF, 3)), detail=str(np.shape(data)), key=f"{cname} result shape")
+        n = 0
+        for i in range(nEF):
+            full = [bool(Ef[i] >= E[k, nb - 1]) for k in range(nk)]
+            if k_resolved:
+                for k in range(nk):
+                    if full[k]:
+                        n += 1
+                        rec.eq(f"k-resolved internal {cname}[k={k}, EF#{i}] == 0 (all bands of this k-point occupied)", data[k, i], zero, key=f"{cname} internal k-resolved: value with all bands occupied != 0")
+            elif all(full):
+                n += 1
+                rec.eq(f"internal {cname}[EF#{i}] == 0 (all bands of all k-points occupied)", data[i], zero, key=f"{cname} internal: value with all bands occupied != 0")
+        rec.concrete("path accounted", True, detail=f"{n} grid points with all bands occupied")
+    rec.explore(body, ass)
+
+
 def cases(tier, seed):
     q = tier == "quick"
     out = []
@@ -243,6 +294,20 @@ def cases(tier, seed):
                 if kr and nb % 2:
                     continue
                 out.append(Case(f"AHC nb={nb} nEF={nEF} kramers={kr}", case_ahc, dict(nb=nb, nEF=nEF, kramers=kr), timeout=1100))
+    if not q:
+        big = 3000
+        out.append(Case("formula Omega nb=5 internal via kw", case_formula, dict(nb=5, fname="Omega", mode="kw", contiguous=True), timeout=big))
+        out.append(Case("tabulator nb=5 kramers=False", case_tabulator, dict(nb=5, kramers=False, via="Tabulator"), timeout=big))
+        out.append(Case("pipeline Data_K_R nb=4 U=1", case_pipeline, dict(nb=4, generic_U=False), timeout=big))
+        out.append(Case("AHC nb=4 nEF=2 kramers=False", case_ahc, dict(nb=4, nEF=2, kramers=False), timeout=big))
+        out.append(Case("AHC nb=4 nEF=2 kramers=True", case_ahc, dict(nb=4, nEF=2, kramers=True), timeout=big))
+        for cname in CALCS:
+            for nb, nEF, nk, kres, kr in ((2, 3, 1, False, False), (3, 2, 1, False, False), (3, 3, 1, False, False), (4, 2, 1, False, False), (2, 2, 2, False, False), (2, 2, 2, True, False),
+                                          (3, 2, 1, True, False), (2, 3, 1, True, True), (4, 2, 1, False, True), (3, 2, 2, True, False)):
+                if cname == "AHC_test" and (nb > 3 or nk > 1 and nb > 2):
+                    continue
+                out.append(Case(f"{cname} anywhere nb={nb} nEF={nEF} nk={nk} k_resolved={kres} kramers={kr}", case_ahc_anywhere,
+                                dict(nb=nb, nEF=nEF, kramers=kr, nk=nk, k_resolved=kres, cname=cname), timeout=big))
     # tetrahedron method: the sum rule for E_F above all bands needs every band to carry total weight exactly 1 there (and 0 below): the band-group
     # weight cases of the C14 harness (real TetraWeights.weights_all_band_groups with sea completion, degenerate groups included) decide that
     from props import c14
@@ -266,6 +331,30 @@ def replay(rec):
 
 def _replay(rec):
     w = rec["witness"]
+    if w["test"] == "ahc_anywhere":
+        nb, nk = w["nb"], w["nk"]
+        E = np.array(w["E"], dtype=float)
+        V = unarr(w["V"]).astype(complex)
+        if np.abs(V).max() == 0:
+            rng = np.random.default_rng(1)
+            V = rng.normal(size=V.shape) + 1j * rng.normal(size=V.shape)
+            V = V + V.swapaxes(1, 2).conj()
+        X = {('Ham', 1): V, ('AA', 0): unarr(w["A"]).astype(complex), ('rotAA', 0): unarr(w["O"]).astype(complex), ('FF', 0): unarr(w["F"]).astype(complex)}
+        Ef = np.array(w["Efermi"], dtype=float)
+        calc = CALCS[w["calc"]]()(Efermi=Ef, kwargs_formula={"external_terms": False}, degen_thresh=w["thr"], degen_Kramers=w["kramers"], save_mode="", k_resolved=w["k_resolved"])
+        d = np.array(calc(shell_k(nb, E, X, copy=lambda a: np.array(a))).data)
+        f = COV.Omega(shell_k(nb, E, X, copy=lambda a: np.array(a)), external_terms=False)
+        scale = max(np.abs(f.trace(k, np.array([n]), np.array([m for m in range(nb) if m != n]))).max() for n in range(nb) for k in range(nk)) * abs(calc.constant_factor) / 8.0
+        worst, where = 0.0, ""
+        for i in range(len(Ef)):
+            full = [Ef[i] >= E[k, nb - 1] for k in range(nk)]
+            if w["k_resolved"]:
+                for k in range(nk):
+                    if full[k] and np.abs(d[k, i]).max() > worst:
+                        worst, where = np.abs(d[k, i]).max(), f"k={k} EF#{i}"
+            elif all(full) and np.abs(d[i]).max() > worst:
+                worst, where = np.abs(d[i]).max(), f"EF#{i}"
+        return bool(worst > 1e-9 * (1e-30 + scale)), f"E={E.tolist()} Efermi={Ef.tolist()}: |{w['calc']}| with all bands occupied = {worst:.3e} at {where} (single-band scale {scale:.3e})"
     if w["test"] == "pipeline":
         import importlib
         EK = importlib.import_module("wannierberri.evaluate_k")
